@@ -6,6 +6,8 @@ package main
 
 import (
 	"crypto/x509"
+	"crypto/x509/pkix"
+	"encoding/asn1"
 	"fmt"
 	"math/big"
 	"strings"
@@ -104,6 +106,8 @@ func runC02(r *Run) {
 			v.Close()
 		}
 	}()
+
+	c02TwoIssuers(e)
 
 	var cases []c02Case
 	maxN := 3
@@ -337,5 +341,51 @@ func (e *c02Env) runCase(idx int, c c02Case) {
 			r.Violate("C02 handshake-verdict", fmt.Sprintf("case %s: IsRevoked gave %s, VerifyClientCertificate %s", c.key(), first.Result, verdict), c)
 		}
 		r.Count("handshake:" + verdict)
+	}
+}
+
+// c02TwoIssuers: "served from a still-valid cache entry" must mean an entry of THIS certificate: two issuers whose names
+// consist of the same attributes in another arrangement issue the same serial; the first certificate's good answer is cached,
+// the second certificate's responder says revoked. The second certificate must be rejected, strict or not.
+func c02TwoIssuers(e *c02Env) {
+	r := e.r
+	atv := func(oid asn1.ObjectIdentifier, v string) pkix.AttributeTypeAndValue {
+		return pkix.AttributeTypeAndValue{Type: oid, Value: v}
+	}
+	oC, oO, oCN := asn1.ObjectIdentifier{2, 5, 4, 6}, asn1.ObjectIdentifier{2, 5, 4, 10}, asn1.ObjectIdentifier{2, 5, 4, 3}
+	k := 0
+	for _, strict := range []bool{false, true} {
+		for shape := 0; shape < 3; shape++ {
+			k++
+			c, o, cn := atv(oC, "DE"), atv(oO, fmt.Sprintf("C02 rdn %d", k)), atv(oCN, "Issuing CA")
+			na := pkix.RDNSequence{{c}, {o}, {cn}}
+			nb := []pkix.RDNSequence{{{cn}, {o}, {c}}, {{c}, {cn, o}}, {{c}, {o}, {atv(oCN, "Other CA")}, {cn}}}[shape]
+			caA := NewCA(CAOpts{EC: true, RawSubject: mustMarshal(na)})
+			caB := NewCA(CAOpts{EC: true, RawSubject: mustMarshal(nb)})
+			serial := big.NewInt(int64(770000 + k))
+			pa, pb := fmt.Sprintf("/c02/ti/%d/a", k), fmt.Sprintf("/c02/ti/%d/b", k)
+			la := caA.IssueLeaf(LeafOpts{CN: "client", Serial: serial, OCSP: []string{e.rsp.URL(pa)}})
+			lb := caB.IssueLeaf(LeafOpts{CN: "client", Serial: serial, OCSP: []string{e.rsp.URL(pb)}})
+			v := e.vals[fmt.Sprintf("%v/1h", strict)]
+			set := func(ca *CA, path string, leaf *x509.Certificate, status int) OSrv {
+				body := ca.OCSPResponse(OCSPOpts{Status: status, Serial: leaf.SerialNumber})
+				e.rsp.SetFixed(path, RespScript{Kind: "bytes", Body: body})
+				return OSrv{URL: e.rsp.URL(path), Path: path, Observable: true, Beh: map[string]string{"*": e.abs.Abstract(body, []*x509.Certificate{ca.Cert})}}
+			}
+			look := func(leaf *x509.Certificate, ca *CA, srv OSrv) LookObs {
+				chains := [][]*x509.Certificate{{leaf, ca.Cert}}
+				o := observeLookup(e.abs, v.V.VerifOCSPChecker(), e.rsp, leaf, chains, []OSrv{srv}, []*x509.Certificate{ca.Cert}, 3600000, -1)
+				r.Op(fmt.Sprintf("ocsp look %s %d %d %s %s %s", b01(strict), 3600000, o.T0, e.abs.CertField(leaf), e.abs.ChainsField(chains, nil), srv.field(e.abs)), o.line())
+				return o
+			}
+			o1 := look(la.Cert, caA, set(caA, pa, la.Cert, ocsp.Good))
+			o2 := look(lb.Cert, caB, set(caB, pb, lb.Cert, ocsp.Revoked))
+			r.Eval(fmt.Sprintf("two-issuers/%d", k), true)
+			r.Count("two-issuers:" + o1.Result + "/" + o2.Result)
+			if o1.Result != "good" || o2.Result != "revoked" || o2.Hit {
+				r.Violate("C02 revoked-answer-lost-to-another-certificates-cache-entry", fmt.Sprintf("strict=%v shape %d: issuer A's certificate: %s; issuer B's certificate (same serial, its responder answers revoked): %s (cache hit: %v)",
+					strict, shape, o1.Result, o2.Result, o2.Hit), nil)
+			}
+		}
 	}
 }
